@@ -405,6 +405,9 @@ class EngineBase:
             st.heap[(cls, field + '.n')] = z3.Store(a, r, val.n)
             a = self.heap_arr(st, cls, field + '.seq', I)
             st.heap[(cls, field + '.seq')] = z3.Store(a, r, val.seq)
+            # entity fields hold containers BY VALUE in this encoding; Python stores a reference.  The two agree as long as the
+            # container is not mutated after it has been stored: from here on any in-place mutation of it leaves the subset
+            val.frozen = True
             return
         if ty.startswith('dict:'):
             if val is None or isinstance(val, (int, float)):
@@ -423,6 +426,7 @@ class EngineBase:
             vs = R if val.vkind == 'num' else I
             a = self.heap_arr(st, cls, field + '.vals', z3.ArraySort(I, vs))
             st.heap[(cls, field + '.vals')] = z3.Store(a, r, val.vals)
+            val.frozen = True       # (as for lists: stored by value, so no mutation through the alias afterwards)
             return
         raise OutOfSubset(f"heap write of {cls}.{field}: type {ty}")
 
